@@ -291,6 +291,13 @@ pub fn crafted_g1(kind: u8) -> [u8; 48] {
 
 pub fn crafted_raw_g1(kind: u8) -> [u8; 97] {
     let g = G1Affine::generator().to_raw_bytes();
+    // the identity's own coordinates under a flag byte that is neither 0 nor 1
+    // (flag and coordinates must be judged together, not one after the other)
+    if kind % 12 >= 8 {
+        let mut b = G1Affine::identity().to_raw_bytes();
+        b[96] = [2u8, 3, 0x80, 0xff][(kind % 4) as usize];
+        return b;
+    }
     match kind % 8 {
         0 => {
             let mut b = g;
